@@ -42,6 +42,16 @@ type Plan struct {
 	CrashAt    int
 	CrashBytes int
 	Crash      bool
+	// ShortOnce > 0: the FIRST write to the plan's file is short (ShortOnce bytes, nil error); later writes are unrestricted
+	// (a write interrupted by a signal, a file system that takes the data in pieces): the caller's continuation succeeds.
+	ShortOnce int
+	// MaxPerWrite > 0: every write to the plan's file takes at most this many bytes (nil error).
+	MaxPerWrite int
+	// CloseLosesData together with FailOp "close": the close fails BECAUSE buffered data could not be written (NFS, quota,
+	// delayed allocation): the file keeps only its first CloseKeeps bytes. Otherwise the data is complete and only the error
+	// is reported.
+	CloseLosesData bool
+	CloseKeeps     int
 }
 
 type state struct {
@@ -52,6 +62,7 @@ type state struct {
 	fdName  map[int]string
 	fileOps int // calls touching the plan's file so far
 	written map[string]int
+	writes  map[string]int // number of write calls per file
 	onCrash func()
 	crashed bool
 }
@@ -69,6 +80,7 @@ func Begin(p Plan, onCrash func()) {
 	st.plan = p
 	st.log = nil
 	st.fdName = map[int]string{}
+	st.writes = map[string]int{}
 	st.fileOps = 0
 	st.written = map[string]int{}
 	st.onCrash = onCrash
@@ -224,7 +236,20 @@ func Write(fd int, p []byte) (int, error) {
 			}
 		}
 	}
-	n, err := unix.Write(fd, p)
+	q := p
+	if st.matches(name) {
+		if st.plan.ShortOnce > 0 && st.writes[name] == 0 && st.plan.ShortOnce < len(q) {
+			q = q[:st.plan.ShortOnce]
+		}
+		if st.plan.MaxPerWrite > 0 && st.plan.MaxPerWrite < len(q) {
+			q = q[:st.plan.MaxPerWrite]
+		}
+	}
+	if st.writes == nil {
+		st.writes = map[string]int{}
+	}
+	st.writes[name]++
+	n, err := unix.Write(fd, q)
 	if n > 0 {
 		st.written[name] += n
 	}
@@ -243,6 +268,9 @@ func Close(fd int) error {
 	_, die := st.pre("close", name)
 	if die {
 		st.die()
+	}
+	if st.matches(name) && st.plan.FailOp == "close" && st.plan.CloseLosesData {
+		unix.Ftruncate(fd, int64(st.plan.CloseKeeps))
 	}
 	err := unix.Close(fd)
 	delete(st.fdName, fd)
@@ -410,4 +438,36 @@ func Describe(log []Call) string {
 		out += " "
 	}
 	return out
+}
+
+// WriteFile is os.WriteFile behind the seam: open (create, truncate), write until done, close — each step a syscall of
+// the log, so a plan can fail it or let the process die between or inside the steps (an in-place rewrite is not atomic).
+func WriteFile(name string, data []byte, perm os.FileMode) error {
+	st.mu.Lock()
+	active := st.active
+	st.mu.Unlock()
+	if !active {
+		return os.WriteFile(name, data, perm)
+	}
+	fd, err := Openat(unix.AT_FDCWD, name, unix.O_WRONLY|unix.O_CREAT|unix.O_TRUNC|unix.O_CLOEXEC, uint32(perm.Perm()))
+	if err != nil {
+		return &os.PathError{Op: "open", Path: name, Err: err}
+	}
+	var werr error
+	for off := 0; off < len(data); {
+		n, err := Write(fd, data[off:])
+		if err != nil {
+			werr = &os.PathError{Op: "write", Path: name, Err: err}
+			break
+		}
+		if n <= 0 {
+			werr = &os.PathError{Op: "write", Path: name, Err: unix.EIO}
+			break
+		}
+		off += n
+	}
+	if cerr := Close(fd); cerr != nil && werr == nil {
+		werr = &os.PathError{Op: "close", Path: name, Err: cerr}
+	}
+	return werr
 }
